@@ -742,3 +742,4 @@ static inline _Bool reset_inv(const Node *c, const Node *W)      /* nodes the cu
   __CPROVER_requires(__CPROVER_is_fresh(self, sizeof(CL)) && FRESH_LOCALS_CL_cloneFrom__loop0) \
   __CPROVER_assigns(self->tail) \
   __CPROVER_ensures(__CPROVER_return_value == 0 && self->tail == *node)
+#include "exc.h"
